@@ -125,9 +125,106 @@ func verifRaceWatch(obj interface{}) {}
 func verifRaceBegin(tag string)   {}
 func verifRaceEnd()               {}
 func verifRaceCheck()             {}
-func verifExplore()               {}
-func verifYield()                 {}
-func verifJoin()                  {}
+
+// cooperative scheduler for explored-mode harnesses: exactly one controlled goroutine runs at a
+// time; at every verifYield / verifJoin the next one is taken from the recorded schedule, mirroring
+// the engine's choice points (threads ordered by creation, choice only if >= 2 candidates).
+type verifThread struct {
+	resume  chan struct{}
+	done    bool
+	blocked bool
+}
+
+var verifThreads = []*verifThread{{resume: make(chan struct{})}}
+var verifCur = 0
+var verifSchedPos = 0
+var verifThreadPanic interface{}
+
+func verifSchedNext(n int) int {
+	verifLoad()
+	var sched []int
+	json.Unmarshal([]byte(verifVec["_sched"]), &sched)
+	k := 0
+	if verifSchedPos < len(sched) {
+		k = sched[verifSchedPos]
+	}
+	verifSchedPos++
+	if k >= n {
+		k = 0
+	}
+	return k
+}
+
+func verifExplore() {}
+
+func verifGo(f func()) {
+	t := &verifThread{resume: make(chan struct{})}
+	verifThreads = append(verifThreads, t)
+	go func() {
+		<-t.resume
+		defer func() {
+			if r := recover(); r != nil {
+				verifThreadPanic = r
+			}
+			t.done = true
+			verifCur = 0
+			verifThreads[0].resume <- struct{}{}
+		}()
+		f()
+	}()
+}
+
+func verifSwitchTo(i int) {
+	self := verifCur
+	if i == self {
+		return
+	}
+	verifCur = i
+	verifThreads[i].resume <- struct{}{}
+	<-verifThreads[self].resume
+	if verifThreadPanic != nil && self == 0 {
+		r := verifThreadPanic
+		verifThreadPanic = nil
+		panic(r)
+	}
+}
+
+func verifYield() {
+	if len(verifThreads) < 2 {
+		return
+	}
+	var c []int
+	for i, t := range verifThreads {
+		if !t.done && !t.blocked {
+			c = append(c, i)
+		}
+	}
+	if len(c) < 2 {
+		return
+	}
+	verifSwitchTo(c[verifSchedNext(len(c))])
+}
+
+func verifJoin() {
+	verifThreads[0].blocked = true
+	defer func() { verifThreads[0].blocked = false }()
+	for {
+		var others []int
+		for i, t := range verifThreads[1:] {
+			if !t.done {
+				others = append(others, i+1)
+			}
+		}
+		if len(others) == 0 {
+			return
+		}
+		k := 0
+		if len(others) > 1 {
+			k = verifSchedNext(len(others))
+		}
+		verifSwitchTo(others[k])
+	}
+}
 func verifNoPanic(f func(), msg string) {
 	defer func() {
 		if r := recover(); r != nil {
@@ -175,6 +272,11 @@ func writeVector(outDir, entry string, v Violation, params map[string]int64) str
 	}
 	vec["_assertion"] = v.Msg
 	vec["_path"] = fmt.Sprint(v.Path)
+	sb, _ := json.Marshal(v.Sched)
+	if v.Sched == nil {
+		sb = []byte("[]")
+	}
+	vec["_sched"] = string(sb)
 	vb, _ := json.MarshalIndent(vec, "", " ")
 	vecPath := filepath.Join(outDir, entry+".json")
 	os.WriteFile(vecPath, vb, 0o644)
@@ -229,4 +331,30 @@ func replayNativeMode(ld *loaded, u Unit, entry string, v Violation, params map[
 		ok = true
 	}
 	return ok, s
+}
+
+// replayRace confirms a lockset finding: the property's native two-goroutine stress test is run
+// under the Go race detector; the finding counts as reproduced only if the detector reports a race.
+func replayRace(ld *loaded, u Unit, entry string, v Violation, params map[string]int64, outDir string, raceTest string) (bool, string) {
+	writeVector(outDir, entry, v, params)
+	pkgDir := pkgDirOf(u.Pkg)
+	b, err := os.ReadFile(harnessPath(raceTest))
+	if err != nil {
+		return false, "no race test: " + err.Error()
+	}
+	tf := filepath.Join(outDir, "race_test.go")
+	os.WriteFile(tf, b, 0o644)
+	repl := map[string]string{filepath.Join(repoDir, pkgDir, "zz_verif_race_test.go"): tf}
+	ob, _ := json.Marshal(map[string]interface{}{"Replace": repl})
+	ov := filepath.Join(outDir, "overlay.json")
+	os.WriteFile(ov, ob, 0o644)
+	args := []string{"test", "-race", "-vet=off", "-count=1", "-overlay", ov, "-run", "TestVerifRace", "./" + pkgDir}
+	cmdline := "cd " + repoDir + " && GOFLAGS=-mod=mod GOPROXY=off go " + strings.Join(args, " ")
+	os.WriteFile(filepath.Join(outDir, "replay.sh"), []byte("#!/bin/sh\n"+cmdline+"\n"), 0o755)
+	cmd := exec.Command("go", args...)
+	cmd.Dir = repoDir
+	cmd.Env = append(os.Environ(), "GOFLAGS=-mod=mod", "GOPROXY=off", "GOSUMDB=off")
+	out, _ := cmd.CombinedOutput()
+	os.WriteFile(filepath.Join(outDir, "replay.out"), out, 0o644)
+	return strings.Contains(string(out), "DATA RACE"), string(out)
 }
